@@ -41,8 +41,9 @@ PROP = dict(
     theorems=['Fit.C19.C19_columns', 'Fit.C19.C19_columns_trim', 'Fit.C19.C19_tables', 'Fit.C19.C19_field_roundtrip_raw', 'Fit.C19.C19_raw_roundtrip_partial', 'Fit.C19.C19_scaled_roundtrip', 'Fit.C19.C19_sequences_partial',
               'Fit.C19.C19_scalar_roundtrip_raw', 'Fit.C19.C19_scaled_roundtrip_profile', 'Fit.C19.C19_array_roundtrip', 'Fit.C19.C19_field_roundtrip_value',
               'Fit.C19.C19_unknown_field_roundtrip', 'Fit.C19.C19_dev_field_roundtrip', 'Fit.C19.C19_dev_float_scale_fixed', 'Fit.C19.C19_subfield_roundtrip', 'Fit.C19.C19_removes_expansion_targets',
-              'Fit.C19.C19_roundtrip_partial', 'Fit.C19.C19_roundtrip', 'Fit.C19.C19_sequences'],
-    families=[dict(name='csv', prop=True), dict(name='csvtext')],
+              'Fit.C19.C19_roundtrip_partial', 'Fit.C19.C19_roundtrip', 'Fit.C19.C19_sequences',
+              'Fit.C19.C19_copy_all_lines_partial', 'Fit.C19.C19_copy_long_line_lost', 'Fit.C19.C19_copy_all_lines_full_false'],
+    families=[dict(name='csv', prop=True), dict(name='csvtext', prop=True)],
     extra=_extra,
     trusted_base=STD_TRUST + [
         "the profile as the converters see it (factory fields: name, units, base type, array, scale/offset bits, component targets, sub-fields and their maps; MesgNum.String(); the reader's mesgNumLookup / fieldNumLookup through the verif hooks) is printed from the compiled packages on every run (Generated/CsvProfile.lean)",
